@@ -19,7 +19,7 @@
    bpend/bleft/bskip (response body stream in flight and whether the encoder swallows it: HEAD).
    Ghost: res (0 = future still pending, 1 = Ok(()), >= 2 error class), pw/ps (wire items flushed
    and service calls started during the current poll), trace (history), reparsed. *)
-From AV Require Import Lib.Base.
+Require Import AV.Lib.Base.
 
 Inductive ka_t := KaTimeout (d : N) | KaOs | KaDisabled.
 (* which of the three repairs (fixes/F12-F15.patch, fixes/F14.patch) the modelled tree contains *)
